@@ -1,5 +1,5 @@
-// C05 — Krylov iterates, complex systems (std::complex<double>). Body: c05_krylov.hpp (rev 1)
+// C05 — Krylov iterates vs textbook references and least-squares optimality, complex systems. Body: c05_krylov.hpp (rev 3)
 #include "c05_krylov.hpp"
-static std::vector<vf::Prop> props() { return c05::props<std::complex<double>>("complex"); }
+static std::vector<vf::Prop> props() { return c05::props_iter<std::complex<double>>("complex"); }
 static std::vector<vf::Enum> enums() { return {}; }
 VF_MAIN(props(), enums())
